@@ -2,6 +2,7 @@ import SlipVerif.Model.JsonLisp
 import SlipVerif.Lemmas.JsonPath
 import SlipVerif.Lemmas.JsonLisp
 import SlipVerif.Lemmas.JsonText
+import SlipVerif.Lemmas.JsonScan
 /-
   C18 — property theorems about the JSON model (Model/Json.lean, JsonText.lean, JsonLisp.lean),
   the model the correspondence harness (harness/cmd/vh/c18*.go) runs against the implementation.
@@ -276,5 +277,45 @@ theorem string_text_roundtrip (s : String) (rest : List Char) :
     readStr ((writeStr s).drop 1 ++ rest) = .ok (s.toList, rest) := by
   simp only [writeStr, List.drop_succ_cons, List.drop_zero, List.append_assoc, List.cons_append, List.nil_append]
   exact readStr_esc s.toList rest
+
+/-! ## several documents in one text (json-parse, each-bag, streams) -/
+
+/-- Documents written one after the other (any white-space layout, white space between them —
+    required only where two documents could otherwise run together —, optional white space at
+    both ends) are read back as exactly that list of documents: every document delivered equals
+    its own source. -/
+theorem parseMany_roundtrip (lay : Layout) (hl : lay.WsOnly) (ds : List (List Char × J)) (tail : List Char)
+    (hds : ∀ d ∈ ds, d.1.all isWs = true ∧ TextOk d.2 = true) (hsep : ∀ d ∈ ds.tail, d.1 ≠ [])
+    (ht : tail.all isWs = true) :
+    parseMany (String.ofList (writeDocs lay ds ++ tail)) = .ok (ds.map (·.2)) := by
+  unfold parseMany
+  simp only [String.toList_ofList, String.length_ofList]
+  apply parseManyAux_writeDocs lay hl ds tail _ hds hsep ht
+  have := length_writeDocs lay ds (fun d h => (hds d h).2)
+  simp only [List.length_append]
+  omega
+
+/-- a concrete instance of the hypotheses: `{"a":1}`, a newline, `[2,3]`, a blank, `4` -/
+example : (∀ d ∈ [(([] : List Char), obj [("a", .int 1)]), (['\n'], arr [.int 2, .int 3]), ([' '], J.int 4)],
+      d.1.all isWs = true ∧ TextOk d.2 = true) ∧
+    (∀ d ∈ [(([] : List Char), obj [("a", .int 1)]), (['\n'], arr [.int 2, .int 3]), ([' '], J.int 4)].tail, d.1 ≠ []) := by
+  constructor <;> intro d hd <;> simp at hd <;> rcases hd with rfl | rfl | rfl <;> decide
+
+/-! ## scan -/
+
+/-- `bag-scan` reports nodes that are there: for a document with unique keys, `bag-get` of a
+    reported path returns the reported node. -/
+theorem scan_agrees_with_get (j : J) (hk : KeysDistinct j = true) (p : Path) (v : J)
+    (h : (p, v) ∈ scan j) : get p j = some v :=
+  scan_get j hk (p, v) h
+
+/-- `:leaves-only` reports exactly the reported nodes that are not containers. -/
+theorem scanLeaves_iff (j : J) (pv : Path × J) :
+    pv ∈ scanLeaves j ↔ pv ∈ scan j ∧ pv.2.isContainer = false := by
+  simp [scanLeaves]
+
+/-- the document itself is reported first, with the empty path -/
+theorem scan_root (j : J) : (scan j).head? = some ([], j) := by
+  cases j <;> simp [scan]
 
 end SlipVerif.Json
